@@ -1,6 +1,6 @@
 (* C08 — concrete witnesses, evaluated by vm_compute: non-vacuity examples for
    the theorems; witnesses that the two FORMER configurations of the code (before
-   the repairs f1643ee and 1222816, named explicitly: [compile_gen false],
+   the repairs f1643ee, 1222816 and 3babbc3, named explicitly: [compile_gen (mkConfig false true)], [compile_gen (mkConfig true false)],
    [transported_env_gen false]) violated the property; and the refutation showing
    the one hypothesis names_unique cannot do without. *)
 From Coq Require Import List String NArith Arith Bool Lia.
@@ -72,12 +72,12 @@ Proof. apply wf_init_b_sound. reflexivity. Qed.
    no partitioner: shuffle_wiring was false for this DAG. *)
 Theorem result_shuffle_unfixed_witness :
   exists st roots,
-    compile_gen false g_reshuffle_result 2%N false init_result empty_env = COk st roots
+    compile_gen (mkConfig false true) g_reshuffle_result 2%N false init_result empty_env = COk st roots
     /\ exists t td m u,
          nth_error (sstore st) (nth 1 roots 0) = Some t /\ In td (tdeps t)
          /\ dpart td = 1
          /\ In m (members (sstore st) td) /\ nth_error (sstore st) m = Some u
-         /\ top u = "inv1_const_shuffle"
+         /\ top u = "inv2_inv1_const_shuffle"
          /\ tnumpart u = 0 /\ tnumpart u <> tnshard t /\ tpart u = 0.
 Proof.
   eexists; eexists. split; [vm_compute; reflexivity|].
@@ -90,8 +90,34 @@ Example result_shuffle_code :
   exists st roots,
     compile_top g_reshuffle_result 2%N false init_result empty_env = COk st roots
     /\ map (fun t => (top t, tnumpart t, tpart t)) (skipn 2 (sstore st))
-       = [("inv1_const_shuffle", 2, 1); ("inv1_const_shuffle", 2, 1); ("inv2_reshuffle", 1, 1); ("inv2_reshuffle", 1, 1)].
+       = [("inv2_inv1_const_shuffle", 2, 1); ("inv2_inv1_const_shuffle", 2, 1); ("inv2_reshuffle", 1, 1); ("inv2_reshuffle", 1, 1)].
 Proof. eexists; eexists. vm_compute. repeat split. Qed.
+
+(* ---------- former defect 3 (repaired by 3babbc3): the name of the re-shuffle tasks ---------- *)
+(* FORMER naming (cfg_named_by_inv = false: "<op of the Result's task>_shuffle"):
+   invocations 2 and 3 both re-shuffle the Result of invocation 1 and mint the
+   same operation name for their re-shuffle tasks, shard for shard; a store keyed
+   by operation name and shard confuses their outputs. *)
+Theorem reshuffle_old_naming_witness :
+  exists st2 r2 st3 r3,
+    compile_gen (mkConfig true false) g_reshuffle_result 2%N false init_result empty_env = COk st2 r2
+    /\ compile_gen (mkConfig true false) g_reshuffle_result 3%N false init_result empty_env = COk st3 r3
+    /\ exists t2 t3, nth_error (sstore st2) 2 = Some t2 /\ nth_error (sstore st3) 2 = Some t3
+                     /\ top t2 = "inv1_const_shuffle" /\ top t2 = top t3 /\ tshard t2 = tshard t3
+                     /\ tinv t2 <> tinv t3.
+Proof.
+  eexists; eexists; eexists; eexists. split; [vm_compute; reflexivity|]. split; [vm_compute; reflexivity|].
+  eexists; eexists. vm_compute. repeat split; discriminate.
+Qed.
+
+(* the code as it is: the two invocations mint different names *)
+Example reshuffle_naming_code :
+  exists st2 r2 st3 r3,
+    compile_top g_reshuffle_result 2%N false init_result empty_env = COk st2 r2
+    /\ compile_top g_reshuffle_result 3%N false init_result empty_env = COk st3 r3
+    /\ map top (skipn 2 (sstore st2)) = ["inv2_inv1_const_shuffle"; "inv2_inv1_const_shuffle"; "inv2_reshuffle"; "inv2_reshuffle"]
+    /\ map top (skipn 2 (sstore st3)) = ["inv3_inv1_const_shuffle"; "inv3_inv1_const_shuffle"; "inv3_reshuffle"; "inv3_reshuffle"].
+Proof. eexists; eexists; eexists; eexists. vm_compute. repeat split. Qed.
 
 (* ---------- former defect 2 (repaired by 1222816): the worker's environment was writable ---------- *)
 (* Map(CachePartial(Reshuffle(Const(2)))): when the driver compiles nothing is
